@@ -187,3 +187,71 @@ Theorem C02_removal_is_one_bulk_withdrawal : forall st,
     Some (E2eModel.MkRunit (E2eModel.ru_filter r) (E2eModel.ru_born r) (RibModel.rib_apply (E2eModel.ru_rib r) (RibModel.UWithdrawBulk ids))).
 Proof. exact E2eProofs.removal_is_one_bulk_withdrawal_std. Qed.
 Print Assumptions C02_removal_is_one_bulk_withdrawal.
+
+(* ---- the bgp-tcp-in unit in a running pipeline (E2e/E2eModel.v, last part; engine `e2e`, ops BO BA BZ BP BS BM) ---- *)
+
+(* who is accepted = the peer table of the configuration CURRENT at accept time: after ANY history of traffic, edits and
+   reloads (from any state), a connection from an address without a session is given a session exactly when the
+   configuration of the LATEST load ([b_loaded]: read off the operations alone) has a peer entry for it, and the session
+   runs with my_asn and the entry of that load; the connection is counted either way; nobody else's session moves.
+   The statement seeded change C13-c2 (configuration loaded once per listener bind) breaks. *)
+Theorem C02_bgp_accepts_by_current_peer_table : forall st0 h k,
+  let st := E2eModel.b_run st0 h in
+  let c := E2eModel.b_loaded (E2eModel.bs_file st0) (E2eModel.bs_cfg st0) h in
+  E2eModel.is_bgp_addr k = true -> E2eModel.b_sess_of st k = None ->
+  E2eModel.b_sess_of (E2eModel.b_step st (E2eModel.BOpen k)) k = option_map (fun v => (E2eModel.bc_asn c, v)) (E2eModel.b_peer_of c k) /\
+  E2eModel.bs_accepted (E2eModel.b_step st (E2eModel.BOpen k)) = (E2eModel.bs_accepted st + 1)%N /\
+  (forall j, j <> k -> E2eModel.b_sess_of (E2eModel.b_step st (E2eModel.BOpen k)) j = E2eModel.b_sess_of st j).
+Proof. exact E2eProofs.bgp_accepts_by_current_peer_table_std. Qed.
+Print Assumptions C02_bgp_accepts_by_current_peer_table.
+
+(* the end of one BGP session in ANY state of the pipeline: what `rib` reports under every other ingress id is what it
+   reported, every record of the session's own id (families 0..3) is reported withdrawn with its attributes, every other
+   session keeps its id and its settings, the session is gone *)
+Theorem C02_bgp_e2e_session_end_spares_other_peers : forall st k sv id,
+  E2eModel.b_sess_of st k = Some sv -> E2eModel.b_session_id st k = Some id ->
+  let st' := E2eModel.b_step st (E2eModel.BClose k) in
+  (forall key, RibModel.k_mui key <> id -> E2eModel.b_rib_lookup st' key = E2eModel.b_rib_lookup st key) /\
+  (forall key, RibModel.k_mui key = id -> (RibModel.k_fam key < 4)%N ->
+               E2eModel.b_rib_lookup st' key = E2eModel.withdrawn_of (E2eModel.b_rib_lookup st key)) /\
+  (forall j, j <> k -> E2eModel.b_session_id st' j = E2eModel.b_session_id st j /\ E2eModel.b_sess_of st' j = E2eModel.b_sess_of st j) /\
+  E2eModel.b_session_id st' k = None /\ E2eModel.b_sess_of st' k = None.
+Proof. exact E2eProofs.bgp_session_end_spares_other_peers_std. Qed.
+Print Assumptions C02_bgp_e2e_session_end_spares_other_peers.
+
+(* each accepted connection = an ingress id of its own: the register's next id, which no live session has (proviso: no live
+   session holds the register's next id - ids are handed out in order, C14). The statement seeded change C02-c2 (one id
+   registered before the accept loop) breaks. *)
+Theorem C02_bgp_accepted_connection_has_fresh_id : forall st k v,
+  E2eModel.is_bgp_addr k = true -> E2eModel.b_sess_of st k = None -> E2eModel.b_peer_of (E2eModel.bs_cfg st) k = Some v ->
+  (forall j id, E2eModel.b_session_id st j = Some id -> id <> IngressModel.serial (PipeModel.w_reg (E2eModel.b_world st))) ->
+  let st' := E2eModel.b_step st (E2eModel.BOpen k) in
+  E2eModel.b_session_id st' k = Some (IngressModel.serial (PipeModel.w_reg (E2eModel.b_world st))) /\
+  (forall j id, j <> k -> E2eModel.b_session_id st j = Some id ->
+                E2eModel.b_session_id st' j = Some id /\ E2eModel.b_session_id st' j <> E2eModel.b_session_id st' k).
+Proof. exact E2eProofs.bgp_accepted_session_has_fresh_id_std. Qed.
+Print Assumptions C02_bgp_accepted_connection_has_fresh_id.
+
+(* known finding C02-bgp-reload-end-unheard: two sessions announce prefix 1, the peer entry of address 0 is taken out and the
+   configuration reloaded. On the schedule in which the Withdraw of the ended session meets the gate's new, still empty
+   subscription table, the route of the deconfigured peer stays active (the property's reading: withdrawn) ... *)
+Theorem C02_bgp_reload_end_unheard_refuted :
+  let st := E2eModel.b_run (E2eModel.b_init E2eModel.SNone 0) (E2eProofs.b_refute_hist (0%N :: nil)) in
+  E2eModel.b_live st = (1%N :: nil) /\
+  E2eModel.b_rib_lookup st (0, 1, 2)%N = Some (true, 3%N) /\
+  E2eModel.b_spec_lookup st 0 1 (PipeModel.bgp_wid 0 0) = Some (false, 3%N) /\
+  E2eModel.b_rib_lookup st (0, 1, 3)%N = Some (true, 4%N).
+Proof. exact E2eProofs.bgp_reload_end_unheard_refuted. Qed.
+Print Assumptions C02_bgp_reload_end_unheard_refuted.
+
+(* ... and on the schedule in which it is heard (also the non-vacuity example: the other peer's route stays active, the
+   deconfigured peer is counted as a disconnect, its next connection is accepted by TCP, counted, and refused) *)
+Example C02_bgp_reload_heard_example :
+  let st := E2eModel.b_run (E2eModel.b_init E2eModel.SNone 0) (E2eProofs.b_refute_hist nil) in
+  E2eModel.b_live st = (1%N :: nil) /\
+  E2eModel.b_rib_lookup st (0, 1, 2)%N = Some (false, 3%N) /\
+  E2eModel.b_spec_lookup st 0 1 (PipeModel.bgp_wid 0 0) = Some (false, 3%N) /\
+  E2eModel.b_rib_lookup st (0, 1, 3)%N = Some (true, 4%N) /\
+  E2eModel.bs_disc st = 1%N /\
+  E2eModel.b_sess_of (E2eModel.b_step st (E2eModel.BOpen 0)) 0 = None /\ E2eModel.bs_accepted (E2eModel.b_step st (E2eModel.BOpen 0)) = 3%N.
+Proof. exact E2eProofs.bgp_reload_heard_example. Qed.
